@@ -1588,7 +1588,7 @@ fn run_bfs(r: &Arc<Report>, label: &str, zone_names: &[&str], k: usize, bound: u
 }
 
 const QUICK_ZONES: &[&str] =
-    &["America/New_York", "Europe/London", "Australia/Lord_Howe", "Africa/Monrovia", "Pacific/Apia", "America/Sao_Paulo", "UTC"];
+    &["America/New_York", "Europe/London", "Australia/Lord_Howe", "Africa/Monrovia", "Pacific/Apia", "America/Sao_Paulo", "Africa/Casablanca", "UTC"];
 const REP: &[&str] = &[
     "America/New_York",
     "Europe/London",
